@@ -1,6 +1,6 @@
 //! C11: coalesce – one inner call per key, shared result, no orphaned waiters.
 
-use crate::actors::caller;
+use crate::actors::{caller_linger, Linger};
 use crate::prng::{Fnv, Prng};
 use crate::report::{Report, Tier};
 use crate::sim::{run_sim, ActorState, What};
@@ -21,6 +21,8 @@ struct R {
     pause: bool,
     drop_poll: Option<u64>,
     drop_after_polls: Option<u32>,
+    /// keep the completed call future alive for this many further scheduling steps
+    linger: u32,
 }
 
 #[derive(Clone, Debug)]
@@ -59,6 +61,7 @@ pub fn gen(rng: &mut Prng, small: bool) -> Cfg {
             pause: rng.chance(0.3),
             drop_poll,
             drop_after_polls: drop_after,
+            linger: if rng.chance(0.3) { rng.range(1, 25) as u32 } else { 0 },
         });
     }
     Cfg { reqs, last_event: last }
@@ -80,7 +83,7 @@ pub fn run(cfg: &Cfg, seed: u64) -> (Arc<World>, crate::sim::SimStats) {
         for (i, r) in cfg.reqs.iter().enumerate() {
             let gate = w.new_gate();
             let req = Req::new(i as u64 + 1, r.key, vec![Step { lat: Lat::Gate(gate), out: r.out }]);
-            let a = sim.actor(req.id, caller(w.clone(), svc.clone(), req, r.pause, map_err));
+            let a = sim.actor(req.id, caller_linger(w.clone(), svc.clone(), req, r.pause, if r.linger > 0 { Linger::Polls(r.linger) } else { Linger::No }, map_err));
             sim.at_poll(r.arrive_poll, What::Start(a));
             sim.at_poll(r.open_poll, What::OpenGate(gate));
             if let Some(d) = r.drop_poll {
@@ -94,7 +97,7 @@ pub fn run(cfg: &Cfg, seed: u64) -> (Arc<World>, crate::sim::SimStats) {
         sim.fair_after_poll = Some(cfg.last_event + 1);
         // progress bound: after the last external event every surviving caller must finish
         // within 8 round-robin rounds
-        sim.poll_cap = cfg.last_event + 1 + 8 * (cfg.reqs.len() as u64 + 1) + 64;
+        sim.poll_cap = cfg.last_event + 1 + (8 + 25) * (cfg.reqs.len() as u64 + 1) + 64;
     });
     (w, stats)
 }
@@ -376,4 +379,167 @@ impl<F> Drop for Tracked<F> {
             self.w.log(Ev::Cancelled { req: self.req });
         }
     }
+}
+
+// ---------------------------------------------------------------------------------------
+// E-STRESS (threads): every caller is an OS thread that drives its call future itself with a
+// no-op waker (coalesce needs no runtime when the inner call has no timer), so requests really
+// arrive *while* a leader is completing on another core.
+// ---------------------------------------------------------------------------------------
+
+pub fn stress_threads(sseed: u64, per_thread: u64) -> Report {
+    use std::future::Future;
+    use std::task::{Context, Poll, Wake, Waker};
+    struct Noop;
+    impl Wake for Noop {
+        fn wake(self: Arc<Self>) {}
+    }
+    let mut rng = Prng::new(sseed);
+    let threads = *rng.pick(&[4usize, 8, 12]);
+    let n_keys = *rng.pick(&[1u32, 2]);
+    let with_cancels = rng.chance(0.5);
+    let mut rep = Report::default();
+    let w = World::new();
+    let svc = CoalesceLayer::new(|r: &Req| r.key).layer(w.probe(1));
+    let mut hs = vec![];
+    for t in 0..threads as u64 {
+        let svc = svc.clone();
+        let w2 = w.clone();
+        let mut r = Prng::new(sseed ^ (t + 1) * 0x51ED);
+        hs.push(std::thread::spawn(move || {
+            let waker = Waker::from(Arc::new(Noop));
+            let mut cx = Context::from_waker(&waker);
+            let mut out: Vec<(u64, u32, Option<Outcome>, u64, u64)> = vec![];
+            for i in 0..per_thread {
+                let mut s = svc.clone();
+                let key = r.below(n_keys as u64) as u32;
+                let id = (t + 1) * 10_000_000 + i;
+                let o = if r.chance(0.85) { Out::Ok } else { Out::Err(1) };
+                let req = Req::new(id, key, vec![Step { lat: Lat::Us(0), out: o }]);
+                let _ = s.poll_ready(&mut cx);
+                let seq0 = w2.log(Ev::Note { what: String::new() });
+                let mut fut = Tracked { fut: Box::pin(s.call(req)), w: w2.clone(), req: id, done: false };
+                let budget = if with_cancels && r.chance(0.15) { r.below(3) } else { u64::MAX };
+                let mut polls = 0u64;
+                let res = loop {
+                    if polls >= budget {
+                        break None;
+                    }
+                    polls += 1;
+                    match std::pin::Pin::new(&mut fut).poll(&mut cx) {
+                        Poll::Ready(x) => break Some(x),
+                        Poll::Pending => {
+                            if polls % 64 == 0 {
+                                std::thread::yield_now();
+                            }
+                            if polls > 50_000_000 {
+                                break None;
+                            }
+                        }
+                    }
+                };
+                let stuck = res.is_none() && budget == u64::MAX;
+                drop(fut);
+                let seq1 = w2.log(Ev::Note { what: String::new() });
+                let oc = res.map(|x| match &x { Ok(v) => Outcome::ok(v), Err(e) => map_err(e) });
+                if stuck {
+                    out.push((id, key, Some(Outcome::layer("STUCK")), seq0, seq1));
+                } else {
+                    out.push((id, key, oc, seq0, seq1));
+                }
+            }
+            out
+        }));
+    }
+    let mut results = vec![];
+    for h in hs {
+        if let Ok(v) = h.join() {
+            results.extend(v);
+        }
+    }
+    let log = w.take_log();
+    let mut serial_key: HashMap<u64, u32> = HashMap::new();
+    let mut serial_req: HashMap<u64, u64> = HashMap::new();
+    let mut flying: HashMap<u32, u64> = HashMap::new();
+    // cancelled leaders: request -> (seq at which the caller began dropping it, seq at which its
+    // inner call was dropped, key); the library frees the key somewhere in between
+    let mut leader_cancels: HashMap<u64, (u64, u64, u32)> = HashMap::new();
+    let mut req_key: HashMap<u64, u32> = HashMap::new();
+    for (id, key, ..) in &results {
+        req_key.insert(*id, *key);
+    }
+    for r in &log {
+        match &r.ev {
+            Ev::InnerEnter { key, serial, req, .. } => {
+                serial_key.insert(*serial, *key);
+                serial_req.insert(*serial, *req);
+                if let Some(s) = flying.get(key) {
+                    rep.violate("C11:two-inner-calls-one-key", format!("threads: r{req} started inner call #{serial} for key {key} while #{s} was in flight"));
+                }
+                flying.insert(*key, *serial);
+            }
+            Ev::InnerExit { key, serial, how, .. } => {
+                if flying.get(key) == Some(serial) {
+                    flying.remove(key);
+                }
+                if matches!(how, How::Dropped | How::Panicked) {
+                    if let Some(q) = serial_req.get(serial) {
+                        let e = leader_cancels.entry(*q).or_insert((r.seq, r.seq, *key));
+                        e.1 = r.seq;
+                    }
+                }
+            }
+            Ev::Cancelled { req } => {
+                flying.retain(|_, s| serial_req.get(s) != Some(req));
+                if let Some(k) = req_key.get(req) {
+                    leader_cancels.insert(*req, (r.seq, u64::MAX, *k));
+                }
+            }
+            _ => {}
+        }
+    }
+    let mut shared = 0u64;
+    let mut cancelled_seen = 0u64;
+    for (id, key, out, seq0, seq1) in &results {
+        match out {
+            Some(Outcome::Ok { serial, req_id, .. }) => {
+                match serial_key.get(serial) {
+                    Some(k) if k == key => {}
+                    other => rep.violate("C11:value-of-another-key", format!("threads: r{id} (key {key}) got the result of inner call #{serial} of key {other:?}")),
+                }
+                if req_id != id {
+                    shared += 1;
+                }
+            }
+            Some(Outcome::Inner { serial, .. }) => {
+                if serial_key.get(serial) != Some(key) {
+                    rep.violate("C11:value-of-another-key", format!("threads: r{id} (key {key}) got the error of inner call #{serial} of another key"));
+                }
+            }
+            Some(Outcome::Layer { kind, .. }) if kind == "RecvError" => rep.violate("C11:recv-error", format!("threads: r{id} resolved with RecvError")),
+            Some(Outcome::Layer { kind, .. }) if kind == "STUCK" => rep.violate("C11:caller-stuck", format!("threads: r{id} was still pending after 5*10^7 polls")),
+            Some(Outcome::Layer { kind, .. }) if kind == "LeaderCancelled" => {
+                cancelled_seen += 1;
+                // sound necessary condition: the cancellation of some leader of this key (from the
+                // moment its caller began dropping it until its inner call was dropped) overlaps
+                // this request's lifetime (client-side stamps around call and resolution)
+                let explained = leader_cancels.values().any(|(s, e, k)| k == key && *e != u64::MAX && *s < *seq1 && *e > *seq0);
+                if !explained {
+                    rep.violate(
+                        "C11:leader-cancelled-without-cancellation",
+                        format!("threads: r{id} (key {key}) failed with LeaderCancelled but no leader of that key was dropped or panicked while the request was alive (cancellations enabled: {with_cancels})"),
+                    );
+                }
+            }
+            _ => {}
+        }
+    }
+    rep.nontrivial = shared > 0;
+    rep.sig = crate::prng::mix(sseed, shared);
+    rep.count("thread_requests", results.len() as u64);
+    rep.count("thread_inner_calls", serial_key.len() as u64);
+    rep.count("thread_results_shared_with_waiters", shared);
+    rep.count("thread_leader_cancelled_outcomes", cancelled_seen);
+    rep.case = json!({"engine":"stress-threads","threads":threads,"keys":n_keys,"cancellations":with_cancels,"requests":results.len(),"inner_calls":serial_key.len(),"shared_results":shared,"leader_cancelled_outcomes":cancelled_seen});
+    rep
 }
